@@ -290,7 +290,7 @@ def gen_stream(r, outward, profile="valid"):
                 else:
                     coefs = [r.choice([-1000, 1000, 0, 31, -33]) for _ in range(nl)]
                 if profile == "wide" and r.random() < 0.3:
-                    coefs = [r.choice([-(1 << 33), 1 << 20, 5]) for _ in range(nl)]
+                    coefs = [r.choice([-(1 << 12), 1 << 11, 5]) for _ in range(nl)]
             if shrinking and cmd != "ZERO" and order > bs:
                 cmd, order = "DIFF1" if bs >= 1 else "DIFF0", min(1, bs)
                 coefs = []
